@@ -141,6 +141,65 @@ def run(R, tier):
                                     f'graded mode: {op} on grades {grades} in Algebra(signature={sig}) stores keys {tuple(r.keys())}, complete grades would be {want}')
 
 
+    # ---- the outer-exponential family in 4-D (series code with float constants): symbol class and cse must not matter ----
+    for it in range(4 if tier == 'quick' else 60):
+        sig = [rng.choice((1, -1, 1, 0)) for _ in range(4)]
+        blade = rng.choice([3, 5, 6, 9, 10, 12])
+        items = {0: rng.choice((1.5, 0.75, -1.25, 2.0))}
+        if it % 2:
+            items[blade] = rng.choice((0.5, -0.25, 1.0))
+        outs = {}
+        for oname, opts in (('default', {}), ('symbolcls=sympy', {'codegen_symbolcls': sympy.Symbol}), ('cse=False', {'cse': False})):
+            alg = algs.make_impl({'sig': sig}, **opts)
+            x = alg.multivector(dict(items))
+            for op in ('outerexp', 'outersin', 'outercos', 'outertan'):
+                try:
+                    r = getattr(x, op)()
+                    outs[oname, op] = ('ok', [(int(k), float(v)) for k, v in zip(r.keys(), r.values())])
+                except Exception as e:  # noqa
+                    outs[oname, op] = ('err', type(e).__name__)
+        for (oname, op), got in outs.items():
+            if oname == 'default':
+                continue
+            r0 = outs['default', op]
+            R.count('options:series-4d:' + oname); R.case(('series4d', tuple(sig), oname, op, tuple(items)), True)
+            if got[0] != r0[0] or (got[0] == 'ok' and not same(got[1], r0[1])):
+                R.violation({'clause': 'differs-under-options', 'graded': False, 'null_generator': 0 in sig, 'symbolcls': oname},
+                            {'signature': sig, 'options': oname, 'op': op, 'x': {str(k): v for k, v in items.items()}, 'got': str(got), 'default': str(r0)},
+                            f'{op} of {items} in Algebra(signature={sig}): {oname} returns {got}, default options return {r0}')
+    # ---- wide operands in 4-D (long generated functions): cse on / off and the defining composition ----
+    for it in range(3 if tier == 'quick' else 40):
+        sig = [rng.choice((1, -1)) for _ in range(4)]
+        outs = {}
+        shapes = [((0, 2, 4), (1, 2, 3)), ((0, 2, 4), (0, 1, 2, 3, 4)), ((1, 3), (1, 2, 3))]
+        gx, gy = shapes[it % len(shapes)]
+        vals = None
+        for oname, opts in (('default', {}), ('cse=False', {'cse': False})):
+            alg = algs.make_impl({'sig': sig}, **opts)
+            if vals is None:
+                vals = ([rng.randint(-5, 5) or 1 for _ in alg.indices_for_grades[gx]], [rng.randint(-5, 5) or 2 for _ in alg.indices_for_grades[gy]])
+            X = alg.multivector(list(vals[0]), grades=gx); Y = alg.multivector(list(vals[1]), grades=gy)
+            for op, f, comp in (('sw', lambda a, b: a >> b, lambda a, b: a * b * ~a), ('proj', lambda a, b: a @ b, lambda a, b: (a | b) * ~b)):
+                r = f(X, Y); c = comp(X, Y)
+                outs[oname, op] = [(int(k), v) for k, v in zip(r.keys(), r.values())]
+                R.count('options:wide-4d:' + oname); R.case(('wide4d', tuple(sig), oname, op, gx, gy), True)
+                if not same(outs[oname, op], [(int(k), v) for k, v in zip(c.keys(), c.values())]):
+                    R.violation({'clause': 'differs-under-options', 'graded': False, 'null_generator': False, 'cse': 'cse' not in opts},
+                                {'signature': sig, 'options': oname, 'op': op, 'grades': [list(gx), list(gy)], 'values': [list(vals[0]), list(vals[1])]},
+                                f'{op} of grades {gx} on grades {gy} in Algebra(signature={sig}) with {oname} differs from its defining composition')
+    # ---- graded mode: the basis blades handed out by alg.blades are the blades of their name ----
+    for it in range(4 if tier == 'quick' else 40):
+        d = rng.choice((2, 3, 4, 4))
+        sig = [rng.choice((1, -1, 0)) for _ in range(d)]
+        g2 = algs.make_impl({'sig': sig, 'graded': True})
+        for nm, k in g2.canon2bin.items():
+            b = g2.blades[nm]
+            R.count('graded-blades'); R.case(('graded-blade', tuple(sig), nm), True)
+            got = {int(kk): v for kk, v in zip(b.keys(), b.values()) if v != 0}
+            if got != {int(k): 1}:
+                R.violation({'clause': 'differs-under-options', 'graded': True, 'null_generator': 0 in sig, 'blades': True},
+                            {'signature': sig, 'options': 'graded=True', 'blade': nm, 'got': str(got)},
+                            f'graded mode: alg.blades.{nm} in Algebra(signature={sig}, graded=True) is {got} (keys: coefficient), expected {{{k}: 1}}')
     # ---- graded mode against Model/Graded.v (completion of grades), evaluated in Coq ----
     pool = algs.AlgPool()
     cases = []
